@@ -9,6 +9,7 @@ from sa.report import AnalysisError
 from sa.report import Result
 from sa.report import norm
 from sa.srcmodel import ClassInfo
+from sa.srcmodel import FunctionInfo
 from sa.srcmodel import Program
 from sa.srcmodel import dotted
 from sa.util import is_self_attr
@@ -63,6 +64,21 @@ def _str_skeletons(fn: ast.AST) -> list[str]:
             out.append(n.value)
     return out
 
+
+
+def _read_contributes(g: FunctionInfo, n: ast.AST) -> bool:
+    """A read of self.<field> in a printer contributes to the printed text: it is in a value position, or it is (part of) the test of an
+    `if` that selects statements which do something. `if self.limit is not None: pass` - what is left when the append is deleted -
+    reads the field and prints nothing."""
+    child = n
+    for a in g.module.ancestors(n):
+        if isinstance(a, (ast.If, ast.While)) and child is a.test:
+            live = [st for st in list(a.body) + list(a.orelse) if not isinstance(st, ast.Pass) and not (isinstance(st, ast.Expr) and isinstance(st.value, ast.Constant))]
+            return bool(live)
+        if isinstance(a, ast.stmt):
+            return True
+        child = a
+    return True
 
 def run(prog: Program, res: Result) -> None:  # noqa: PLR0912, PLR0915
     res.explanation = (
@@ -435,6 +451,28 @@ def run(prog: Program, res: Result) -> None:  # noqa: PLR0912, PLR0915
                 res.ok("C12.R6", site, what, "reduce support present" if has else "__new__ needs only the value")
             else:
                 res.fail("C12.R6", file=c.file, line=c.node.lineno, qualname=c.name, construct=f"{c.name}.__new__ requires extra arguments but no __getnewargs_ex__/__reduce__", message=f"{c.name} subclasses {imm[0]} with a __new__ that requires more than the value and defines no __getnewargs_ex__/__reduce__: pickle.loads of any template containing it raises TypeError", what=what)
+        if imm:
+            # the value handed back to __new__ is the object's own value: the conversion used to take it is the builtin's, not an override
+            conv = {"str": "__str__", "int": "__int__", "float": "__float__", "repr": "__repr__", "format": "__format__", "bytes": "__bytes__"}
+            for gn in ("__getnewargs_ex__", "__getnewargs__", "__reduce__", "__reduce_ex__", "__getstate__"):
+                g = prog.find_method(c, gn)
+                if g is None:
+                    continue
+                used: set[str] = set()
+                for x in ast.walk(g.node):
+                    if isinstance(x, ast.Call) and isinstance(x.func, ast.Name) and x.func.id in conv and x.args and isinstance(x.args[0], ast.Name) and x.args[0].id == "self":
+                        used.add(conv[x.func.id])
+                    if isinstance(x, ast.FormattedValue) and isinstance(x.value, ast.Name) and x.value.id == "self":
+                        used |= {"__format__", "__str__"} if x.conversion == -1 else {"__repr__" if x.conversion == ord("r") else "__str__"}
+                for d in sorted(used):
+                    n_pk += 1
+                    ov = prog.find_method(c, d)
+                    site = f"{c.file}:{g.node.lineno} {c.name}.{gn}"
+                    what = f"{c.name}.{gn} takes the value to rebuild with through {d}, which is the builtin {imm[0]}'s"
+                    if ov is None:
+                        res.ok("C12.R6", site, what, f"{c.name} does not override {d}")
+                    else:
+                        res.fail("C12.R6", file=c.file, line=ov.node.lineno, qualname=f"{c.name}.{d}", construct=f"{c.name}.{gn} rebuilds from {d}, which {c.name} overrides", message=f"{c.name}.{gn} hands `{d[2:-2]}(self)` to __new__ when a template is unpickled, but {c.name} overrides {d} (a display form): the rebuilt object holds the display text, not the original value - names written with quotes no longer match after a pickle round trip", what=what)
         # slots completeness
         all_slots = all("__slots__" in k.class_attrs for k in mro) and not [b for b in exts if b not in ("abc.ABC", "ABC", "typing.Generic", "Generic", "object")]
         if all_slots:
@@ -569,7 +607,7 @@ def run(prog: Program, res: Result) -> None:  # noqa: PLR0912, PLR0915
                 continue
             seen.add(g.fid)
             for n in ast.walk(g.node):
-                if is_self_attr(n):
+                if is_self_attr(n) and _read_contributes(g, n):
                     printed.add(n.attr)
                 if isinstance(n, ast.Call) and isinstance(n.func, ast.Attribute) and isinstance(n.func.value, ast.Name) and n.func.value.id == "self":
                     h = prog.find_method(c, n.func.attr)
